@@ -287,6 +287,13 @@ func runC13(o Opts) error {
 			datetime([6]int{y, m, d, r.Intn(24), r.Intn(60), r.Intn(60)}, "datetime/random")
 		}
 	}
+	// the civil value reported does not depend on how long the controller took to answer (under a zone with offset changes)
+	if o.Replay == "" {
+		if l, err := time.LoadLocation("Australia/Lord_Howe"); err == nil {
+			time.Local = l
+			latencyProbe(s, r)
+		}
+	}
 	time.Local = time.UTC
 	s.Extra["midnight_skipping_days_found"] = skippedMidnights
 	s.Extra["whole_day_skips_found"] = wholeDays
